@@ -459,7 +459,9 @@ class World:
             pr = self.hosts[author].create_pull_request(
                 title=title, name='name', src_branch=src, dst_branch=dst,
                 close_source_branch=True, description='')
-            self.prs[pr.id] = {'src': src, 'dst': dst, 'author': author}
+            self.prs[pr.id] = {'src': src, 'dst': dst, 'author': author,
+                               'shared_commits': True}
+            other['shared_commits'] = True
             self.note_commits()
             return pr.id
         base = 'origin/' + dst
